@@ -51,6 +51,14 @@ fn x64_core_redirect() {
         run(&mut c, 4);
         assert!(!c.bad, "VERIF[C01]: patched entry/trampoline do not decode to a chain of branches");
         assert!(c.pc == t && !c.returned, "VERIF[C01]: control does not arrive at the fake");
+        // reachability witnesses come before the obligations of other properties (an assert cuts the path)
+        kani::cover!(sim::JIT[0].bytes[0] == 0xE9, "COVER: rel32 trampoline form");
+        kani::cover!(sim::JIT[0].bytes[0] == 0x48, "COVER: abs64 trampoline form");
+        kani::cover!((f & 4095) > 4096 - 5, "COVER: entry patch straddles a page boundary");
+        kani::cover!(f < 0x800_0000, "COVER: target below 128 MiB");
+        kani::cover!(sim::ENT[0].bytes[0] == 0x48, "COVER: 12-byte entry form");
+        kani::cover!(j > f, "COVER: trampoline above the target");
+        kani::cover!(j < f, "COVER: trampoline below the target");
         // C13
         assert!(
             transparent_except_rax(&c0, &c),
@@ -71,13 +79,6 @@ fn x64_core_redirect() {
         // C12
         assert!(sim::live_jits() == 1 && sim::S.N_MUNMAP == 0, "VERIF[C12]: live trampolines differ from live guards after install");
 
-        kani::cover!(sim::JIT[0].bytes[0] == 0xE9, "COVER: rel32 trampoline form");
-        kani::cover!(sim::JIT[0].bytes[0] == 0x48, "COVER: abs64 trampoline form");
-        kani::cover!((f & 4095) > 4096 - 5, "COVER: entry patch straddles a page boundary");
-        kani::cover!(f < 0x800_0000, "COVER: target below 128 MiB");
-        kani::cover!(sim::ENT[0].bytes[0] == 0x48, "COVER: 12-byte entry form");
-        kani::cover!(j > f, "COVER: trampoline above the target");
-        kani::cover!(j < f, "COVER: trampoline below the target");
 
         drop(g);
         // C02
